@@ -105,12 +105,15 @@ def layout(out, ed):
     incs = []
     brk = {}
     joins = set()
+    joincmt = {}
     case = 0
     for j, e in enumerate(ed, 1):
         if e["t"] == "brk":
             brk[e["pos"]] = (e["a"], e["b"])
         elif e["t"] == "join":
             joins.add(e["pos"])
+            if e.get("a"):
+                joincmt[e["pos"]] = e["a"]
         elif e["t"] == "case":
             case = e["a"]
         t = e["t"]
@@ -202,7 +205,7 @@ def layout(out, ed):
             if (i - 1) in joins and phys:
                 # joined to the previous statement with `;`
                 pi, pl = phys[-1]
-                phys[-1] = (i, pl + "; " + render.stmt_line(s, indent=False))
+                phys[-1] = (i, pl + "; " + render.stmt_line(s, indent=False) + (("  " + CMT[joincmt[i - 1]]) if joincmt.get(i - 1) else ""))
             else:
                 phys.append((i, line))
         last_line[i] = len(phys)
